@@ -180,3 +180,32 @@ def register(M):
     M('C04_req_shared', ['C04', 'C11'], 'directive.py',
       "                        state[key] = set(self._global_state[key])\n", "                        state[key] = self._global_state[key]\n",
       'inline REQUIRES overlay shares the persistent set (inline effect leaks)')
+
+    # ---- C13 ---------------------------------------------------------------
+    M('C13_le', ['C13'], 'parser.py',
+      "                elif line_indent < state_indent:\n                    curr_state = TEXT\n                else:\n                    curr_state = WANT",
+      "                elif line_indent <= state_indent:\n                    curr_state = TEXT\n                else:\n                    curr_state = WANT",
+      'a want line at the indentation of the source is taken as text')
+    M('C13_blank', ['C13'], 'parser.py',
+      "                # blank lines terminate wants\n                if len(strip_line) == 0:\n                    curr_state = TEXT",
+      "                # blank lines terminate wants\n                if False:\n                    curr_state = TEXT",
+      'a blank line no longer ends a want')
+    M('C13_lineno', ['C13', 'C08'], 'parser.py',
+      "                lineno += len(slines) + len(wlines)", "                lineno += len(slines)",
+      'running line counter ignores want lines')
+    M('C13_dcnt', ['C13', 'C20'], 'parser.py',
+      "                        if prev_state == DCNT:\n                            # Hack to fix continuation issue\n                            curr_state = DCNT",
+      "                        if False:\n                            # Hack to fix continuation issue\n                            curr_state = DCNT",
+      "bare '...' after a continuation line is a want")
+    M('C13_srcdedent', ['C13'], 'parser.py',
+      "                if len(strip_line) == 0 or line_indent < state_indent:\n                    curr_state = TEXT",
+      "                if len(strip_line) == 0:\n                    curr_state = TEXT",
+      'a de-indented line after source is taken as a want')
+    M('C13_minindent', ['C13'], 'parser.py',
+      "            string = '\\n'.join([ln[min_indent:] for ln in string.splitlines()])",
+      "            string = '\\n'.join([ln.lstrip() if ln[:min_indent].strip() == '' and not ln.lstrip().startswith(('>', '.')) else ln[min_indent:] for ln in string.splitlines()])",
+      'text lines lose all their indentation')
+    M('C13_wantprompt', ['C13'], 'parser.py',
+      "                elif _hasprefix(line.strip(), ('>>>',)):\n                    curr_state = DSRC\n                elif line_indent < state_indent:",
+      "                elif _hasprefix(line.strip(), ('>>>', '...')):\n                    curr_state = DSRC\n                elif line_indent < state_indent:",
+      "a want line starting with '...' is taken as source")
